@@ -336,7 +336,8 @@ class Facts:
             body = Body(b)
             body.ext = True
             m = re.search(r'~ (.*?)\)\), args', body.name)
-            body.key = 'ext:' + (re.sub(r'\[[0-9a-f]+\]', '', m.group(1)) if m else body.name)
+            local = body.name.startswith('Instance { def: Item(DefId(0:')      # an in-crate function with const generics, monomorphised (see fn_ref in the driver)
+            body.key = ('mono:' if local else 'ext:') + (re.sub(r'\[[0-9a-f]+\]', '', m.group(1)) if m else body.name)
             self.ext[body.name] = body
         self.adts = {a['name']: a for a in self.j['adts']}
         self.consts = {c['name']: c for c in self.j['consts']}
